@@ -6,6 +6,54 @@ import os
 ROOT = os.path.dirname(os.path.dirname(os.path.abspath(__file__)))
 
 CHECKS = {
+    "C01": dict(
+        cat="exploration",
+        text="dali.command.from_frame is executed on enumerated forward frames (quick: all 2^16 16-bit frames x 11 device "
+             "types, 2^16 upper halves x 4 low bytes + random 24-bit frames, device/instance event frames under 9 instance "
+             "maps, every other length 1..64; thorough: all 2^16 x 256 device types, all 2^24 24-bit frames, all 2^21 "
+             "device/instance event frames x 9 maps). Each frame must decode without exception to a Command whose frame is "
+             "bit-identical, with the input unmodified and str()/repr() total; frames the independent tables do not define "
+             "must be the generic classes. Each block is decoded in three orders (ascending, shuffled, interleaved with "
+             "other contexts) and per-frame digests compared; class-level registries are fingerprinted before/after.",
+        note="Trusts spec/iec62386_tables.py for 'not a known command' (judged only in the direction unknown => generic "
+             "class) and the instance-map objects built by the harness.",
+        tech="runtime monitoring: exhaustive enumeration with per-frame oracle, order-independence digests and registry "
+             "fingerprints; light contract wrappers on Frame/address methods",
+        ref="DESIGN.md §4 C01"),
+    "C02": dict(
+        cat="exploration",
+        text="Every command class named by the standard's tables and every event class is constructed with all legal "
+             "destination / instance / parameter combinations (strided in quick, full in thorough), its frame decoded "
+             "under its own device type (and an instance map for device/instance events) and compared: same class, equal "
+             "fields by == and by (kind, number), same text; a frame table detects two commands sharing a frame. About "
+             "4.5k illegal argument tuples (one outside each range end, wrong types, wrong address kind, conflicting "
+             "event fields) must raise.",
+        note="Constructor families are taken from the row kind of spec/iec62386_tables.py; categories of illegal "
+             "arguments are the ones the property lists; other leniencies are reported as observations.",
+        tech="runtime monitoring: constructor->frame->decoder round-trip oracle over enumerated arguments, rejection oracle",
+        ref="DESIGN.md §4 C02"),
+    "C03": dict(
+        cat="exploration",
+        text="For each of the 314 rows of a hand-transcribed table of IEC 62386 parts 102/103/202/205/206/207/209/301/"
+             "303/304 and every legal argument, the integer the library emits is compared with an independent bit-level "
+             "encoder, the table's frame must decode to the row's class with the same arguments, and sendtwice / answer "
+             "kind / device type / is_query must equal the table's columns; every registered command class must be "
+             "claimed by exactly one row; event frames are compared with an independent Table-3 encoder for all schemes.",
+        note="The standard is not available offline: the table is the author's transcription (four send-twice cells are "
+             "pinned to the reviewed library value and marked as such).",
+        tech="runtime monitoring: table-driven independent encoder as oracle, both directions, enumerated arguments",
+        ref="DESIGN.md §4 C03"),
+    "C04": dict(
+        cat="exploration",
+        text="Every address and instance object is written into sampled (quick: 4096 per object) or all (thorough) frames "
+             "of the right size and the result compared bit-for-bit with the standard's layout (other bits untouched), "
+             "then read back and compared; every 16-bit frame and 2^16 upper halves of 24-bit frames are decoded and "
+             "compared with the standard's partition, calling each per-kind decoder to show at most one matches; all "
+             "wrong sizes 1..64 must raise IncompatibleFrame leaving the frame intact; all 436x436 object pairs are "
+             "compared for equality.",
+        note="Trusts models/addr_ref.py (partition of address/instance bytes).",
+        tech="runtime monitoring: reference partition oracle, bit-locality check, contract wrappers on add_to_frame",
+        ref="DESIGN.md §4 C04"),
     "C05": dict(
         cat="exploration",
         text="The real Frame class is driven through every single operation on every frame of width 1..6 "
